@@ -95,7 +95,8 @@ def float_record(rid, solver, Y):
     Yf = np.asarray(Y, dtype=float)
     scale, aspdec, scaledec, featdec = classify(Yf)
     rec = {"id": rid, "tier": 3, "solver": solver, "exc": "none", "nticks": 0, "hullticks": 0,
-           "wticks": 0, "k": len(Y), "aspDec": aspdec, "scaleDec": scaledec, "featDec": featdec}
+           "wticks": 0, "k": len(Y), "aspDec": aspdec, "scaleDec": scaledec, "featDec": featdec,
+           "floatY": [[float(c).hex() for c in p] for p in Yf]}
     try:
         v, S, w = SOLVERS[solver](Y)
     except Exception as e:
@@ -165,11 +166,33 @@ PINNED = [  # inputs named in known_findings.json, replayed in every run
 ]
 
 
+def _sliver(rng):
+    """thin triangle / flat tetrahedron (aspect 1e2..1e5, smallest extent >= 1.2e-3) with the origin
+    projecting into its interior at a distance comparable to its height: near-degenerate but well scaled"""
+    B = 10 ** rng.uniform(0.3, 2.0)
+    h = max(1.3e-3, B * 10 ** rng.uniform(-4.8, -2.0))
+    a = np.array([0.0, 0.0, 0.0]); b = np.array([B, 0.0, 0.0]); c = np.array([B * rng.uniform(0.2, 0.8), h, 0.0])
+    P = [a, b, c]
+    if rng.random() < 0.4:
+        P.append(np.array([B * rng.uniform(0.2, 0.8), h * rng.uniform(0.1, 0.9), h * rng.uniform(0.5, 2.0)]))
+    w = np.array([rng.uniform(0.1, 1.0) for _ in range(3)]); w /= w.sum()
+    foot = w[0] * a + w[1] * b + w[2] * c
+    off = rng.choice((0.0, 0.5 * h, 5 * h, 100 * h, 0.3 * B)) * rng.choice((-1, 1))
+    o = foot + np.array([0.0, 0.0, off])
+    q, _ = np.linalg.qr(np.array([[rng.gauss(0, 1) for _ in range(3)] for _ in range(3)]))
+    Y = (np.array(P) - o) @ q.T
+    idx = list(range(len(P))); rng.shuffle(idx)
+    return Y[idx]
+
+
 def float_samples(n, rng):
-    """half 'moderate' (anisotropic scaling 10^[-1,1.5]), half 'extreme' (10^[-6,6], the twelve
-    orders of magnitude of the property); the judge classifies each by its measured conditioning"""
-    return ([np.array(p) for p in PINNED] + [_rand_cfg(rng, -1.0, 1.5) for _ in range(n // 2)]
-            + [_rand_cfg(rng, -6.0, 6.0) for _ in range(n - n // 2)])
+    """a third 'moderate' (anisotropic scaling 10^[-1,1.5]), a third 'flat' (10^[-2.5,2], k >= 3), a third
+    'extreme' (10^[-6,6], the twelve orders of magnitude of the property); the judge classifies each
+    record by its measured conditioning"""
+    return ([np.array(p) for p in PINNED] + [_rand_cfg(rng, -1.0, 1.5) for _ in range(n // 3)]
+            + [_rand_cfg(rng, -2.5, 2.0, kmin=3) for _ in range(n // 6)]      # flat / needle-like, still well scaled
+            + [_sliver(rng) for _ in range(n // 3 - n // 6)]
+            + [_rand_cfg(rng, -6.0, 6.0) for _ in range(n - 2 * (n // 3))])
 
 
 def model_check(res, tier):
@@ -224,7 +247,7 @@ def run(tier, seed):
         else:
             key = f"{r['solver']}:{chash(r.get('Y', rid))}:{'+'.join(sorted(clauses))}"
         res.violation(key, "+".join(sorted(clauses)),
-                      f"solver={r['solver']} Y={r.get('Y')} returned S={r.get('S')} x={r.get('xn')}/{r.get('xd')} exc={r['exc']}",
+                      f"solver={r['solver']} Y={r.get('Y') or [[float.fromhex(c) for c in p] for p in r['floatY']]} returned S={r.get('S')} x={r.get('xn')}/{r.get('xd')} exc={r['exc']}",
                       {"record": r, "floatY": None if r["tier"] != 3 else "regenerate with seed"})
     for r in recs:
         if r["tier"] == 1 and len(r["Y"]) >= 2:
@@ -254,9 +277,9 @@ def replay(path):
     v = json.load(open(path))
     r = v["replay"]["record"]
     if r["tier"] != 1:
-        print("float-tier record: re-run the check with the same VERIF_SEED")
-        return 2
-    new = lattice_record(r["id"], r["solver"], [tuple(p) for p in r["Y"]])
+        new = float_record(r["id"], r["solver"], np.array([[float.fromhex(c) for c in p] for p in r["floatY"]]))
+    else:
+        new = lattice_record(r["id"], r["solver"], [tuple(p) for p in r["Y"]])
     res = Result("C18", "quick", 0)
     rej = trace.judge([new], "c18", "SimplexTrace", "SimplexTrace.cfg", "c18r", res)
     print("record:", new)
